@@ -1,8 +1,74 @@
 import PymtlVerif.Driver.Sexp
-/-! Handler `rv` (stub: not built yet). -/
-namespace PV.Driver.Rv
-open PV
+import PymtlVerif.Model.TinyRV0
+import PymtlVerif.Model.Cksum
+/-!
+Handler `rv`: executable face of `Model/TinyRV0.lean` and `Model/Cksum.lean` for the C20
+correspondence check.
 
-def handle (_args : List Sexp) : Option String := none
+* `rv run ((addr word) ...) (inp ...) fuel`
+    → `<stop> <icount> <pc> (out ...) (x0 ... x31) ((addr word) ...)`
+    the memory listing holds every word that has at least one byte present in the final memory
+    (initial image and stores), sorted by address.
+* `rv decode w`                → `none` | `<name> a b c` (fields in the order of `Inst`'s constructor)
+* `rv encode <name> a b c`     → `<word>` | `notwf`
+* `rv cksum (w ...)`           → `<spec> <fl> <rtl> <cl-of-packed> <rtl-of-packed>`
+-/
+namespace PV.Driver.Rv
+open PV PV.TinyRV0
+
+def pair? : Sexp → Option (Nat × Nat)
+  | .list [a, w] => do some (← a.nat?, ← w.nat?)
+  | _ => none
+
+def showInst : Inst → String
+  | .csrr rd csr => s!"csrr {rd} {csr} 0"
+  | .csrw csr rs1 => s!"csrw {csr} {rs1} 0"
+  | .add a b c => s!"add {a} {b} {c}"
+  | .and a b c => s!"and {a} {b} {c}"
+  | .sll a b c => s!"sll {a} {b} {c}"
+  | .srl a b c => s!"srl {a} {b} {c}"
+  | .addi a b c => s!"addi {a} {b} {c}"
+  | .lw a b c => s!"lw {a} {b} {c}"
+  | .sw a b c => s!"sw {a} {b} {c}"
+  | .bne a b c => s!"bne {a} {b} {c}"
+
+def mkInst? (name : String) (a b c : Nat) : Option Inst :=
+  match name with
+  | "csrr" => some (.csrr a b) | "csrw" => some (.csrw a b)
+  | "add" => some (.add a b c) | "and" => some (.and a b c)
+  | "sll" => some (.sll a b c) | "srl" => some (.srl a b c)
+  | "addi" => some (.addi a b c) | "lw" => some (.lw a b c)
+  | "sw" => some (.sw a b c) | "bne" => some (.bne a b c)
+  | _ => none
+
+/-- sorted, duplicate-free list of the word addresses that have a byte in memory -/
+def wordAddrs (m : Mem) : List Nat :=
+  let ks := (m.m.toList.map (fun kv => kv.1 / 4 * 4)).mergeSort (· ≤ ·)
+  ks.eraseDups
+
+def showMem (m : Mem) : String :=
+  "(" ++ " ".intercalate ((wordAddrs m).map (fun a => s!"({a} {loadWord m a})")) ++ ")"
+
+def handle (args : List Sexp) : Option String :=
+  match args with
+  | [.atom "run", .list img, inp, fuel] => do
+      let ws ← img.mapM pair?
+      let inp ← inp.nats?
+      let fuel ← fuel.nat?
+      if ws.any (fun aw => aw.2 ≥ W32) || inp.any (· ≥ W32) then none else
+      let (s, n, stop) := run fuel (State.init (loadImage ws) inp) 0
+      some s!"{stop.name} {n} {s.pc} {natsToString s.out} {natsToString s.regs} {showMem s.mem}"
+  | [.atom "decode", w] => do
+      match decode (← w.nat?) with
+      | some i => some (showInst i)
+      | none => some "none"
+  | [.atom "encode", .atom name, a, b, c] => do
+      let i ← mkInst? name (← a.nat?) (← b.nat?) (← c.nat?)
+      if decide i.Wf then some s!"{encode i}" else some "notwf"
+  | [.atom "cksum", ws] => do
+      let ws ← ws.nats?
+      let b := Cksum.packWords ws
+      some s!"{Cksum.cksumSpec ws} {Cksum.cksumFL ws} {Cksum.cksumRTL ws} {Cksum.cksumCLmsg b} {Cksum.cksumRTLmsg b}"
+  | _ => none
 
 end PV.Driver.Rv
